@@ -365,3 +365,82 @@ def union_tag_case(rng):
 def struct_default_case(rng):
     t = rng.choice(corpus_validators((bv.Struct,)))
     return {'self': N.describe(t)}
+
+
+# ---------------------------------------------------------------- JSON documents for the decoder
+
+def decoder_desc(strict):
+    return {'k': 'obj', 'cls': 'stone.backends.python_rsrc.stone_serializers:PythonPrimitiveToStoneDecoder',
+            'slots': {'caller_permissions': _perm_desc(), 'alias_validators': {'k': 'none'},
+                      'strict': {'k': 'bool', 'v': bool(strict)}, '_old_style': {'k': 'bool', 'v': False},
+                      '_for_msgpack': {'k': 'bool', 'v': False}}, 'id': 1}
+
+
+JSON_ATOMS = [None, True, False, 0, 1, -1, 2 ** 31, 2 ** 64, 1.5, -0.0, '', 'a', 'ab', '.tag', 'other', 'é', 'YQ==',
+              '2020-01-02T03:04:05Z', [], {}, [1], {'.tag': 'a'}, {'.tag': 3}, ['.tag']]
+
+
+def mutate_json(rng, j, depth=0):
+    """1-2 structural mutations of a JSON document"""
+    r = rng.random()
+    if isinstance(j, dict) and j and r < 0.75:
+        d = dict(j)
+        k = rng.choice(sorted(d))
+        m = rng.random()
+        if m < 0.25:
+            del d[k]
+        elif m < 0.45:
+            d['zz_unknown'] = rng.choice(JSON_ATOMS)
+        elif m < 0.6:
+            d[k + '_x'] = d.pop(k)
+        elif m < 0.8 and depth < 3:
+            d[k] = mutate_json(rng, d[k], depth + 1)
+        else:
+            d[k] = rng.choice(JSON_ATOMS)
+        return d
+    if isinstance(j, list) and j and r < 0.75 and depth < 3:
+        l = list(j)
+        i = rng.randrange(len(l))
+        l[i] = mutate_json(rng, l[i], depth + 1)
+        return l
+    return rng.choice(JSON_ATOMS)
+
+
+def gen_document(rng, t):
+    """a JSON document for validator t: the reference encoding of a valid value,
+    a mutation of one, or an arbitrary small document"""
+    import spec.runtime as S
+    r = rng.random()
+    if r < 0.12:
+        return rng.choice(JSON_ATOMS)
+    for _ in range(20):
+        v = gen_gvalue(rng, t)
+        try:
+            if S.enc_pre(t, v) and S.enc_ok(t, v):
+                j = S.enc_val(t, v)
+                break
+        except Exception:
+            continue
+    else:
+        return rng.choice(JSON_ATOMS)
+    if isinstance(j, dict):
+        j = dict(j)
+    if r < 0.55:
+        return j
+    j = mutate_json(rng, j)
+    if r > 0.9:
+        j = mutate_json(rng, j)
+    return j
+
+
+def decode_case(kinds=None, argname='data_type', need_dict=False):
+    def gen(rng):
+        import spec.corpus as corpus
+        corpus.load()
+        t = rng.choice(corpus_validators(kinds))
+        for _ in range(50):
+            j = gen_document(rng, t)
+            if not need_dict or isinstance(j, dict):
+                break
+        return {'self': decoder_desc(rng.random() < 0.5), argname: N.describe(t), 'obj': desc_value2(j)}
+    return gen
